@@ -663,7 +663,7 @@ static Reg r_rhdatanhee("rh_datanhee", [](const Args& a) {
 static double pw(Rng& r, int lo, int hi) { return std::pow(10.0, r.range(lo, hi)); }
 void gv::generate(const std::string& tier, uint64_t seed) {
   Rng r(seed * 9176 + 11);
-  long n = tier == "thorough" ? 6000 : 700;
+  long n = tier == "thorough" ? 6000 : 900;
   struct EF { double a, f; int modes; };   // modes: 1 series, 2 exact, 3 both
   std::vector<EF> ell = {{aW, fW, 3}, {aW, fW, 3}, {aW, 0, 3}, {6.4e6, 0.001, 3}, {6.4e6, -0.001, 3}, {6.4e6, 0.01, 3}, {6.4e6, -0.01, 3}, {6.4e6, 0.1, 2}, {6.4e6, -0.1, 2}, {1, 1 / 150.0, 3}, {6378137, -1 / 298.257223563, 3}};
   auto H = [](double x) { return hx(x); };
